@@ -124,7 +124,9 @@ func (c19) Generate(r *sim.Rand, tier string) *sim.Scenario {
 			}
 			st.F = append(append(st.F, yp...), yt...)
 			sc.Steps = append(sc.Steps, st)
-		case r.Bool(pFault):
+		case sparse || r.Bool(pFault):
+			// (in sparse mode everything that is not an accepted call is a rejected
+			// one: the number of accepted calls between two reads stays exact)
 			n := r.Range(1, 6)
 			st := sim.Step{C: c, Op: "bad", Tag: c19Bad[r.Intn(len(c19Bad))], N: n, Out: -1}
 			for i := 0; i < 2*n+1; i++ {
@@ -450,7 +452,7 @@ func (c19) execOne(sc *sim.Scenario) *sim.Outcome {
 				out.Fail("rejected-call-changed-state", "%s: rejected Accumulate (%v) changed the metric's state", where, err)
 				return finish(out, lh, sig, start)
 			}
-			if !checkResult(c, where+" after rejection") {
+			if sc.Cfg["sparse"] != 1 && !checkResult(c, where+" after rejection") {
 				out.Violation.Oracle = "rejected-call-changed-result"
 				return finish(out, lh, sig, start)
 			}
